@@ -73,6 +73,72 @@ def rounders_rule(rep, mod, f):
              'the value converted to the integer part does not include rounders[precision]')
 
 
+def digit_cursor(f, L, stores):
+    """the header phi of the digit loop through which the digits are stored (a pointer advanced once per iteration)"""
+    out = []
+    for sid in stores:
+        p = f.insts[sid].ops[1]
+        for _ in range(3):
+            if p.k != 'inst':
+                break
+            i = f.insts[p.id]
+            if i.op == 'phi' and i.block is L['header'] and i.ty.get('k') == 'ptr':
+                out.append(i)
+                break
+            if i.op in ('getelementptr', 'bitcast'):
+                p = i.ops[0]
+            else:
+                break
+    if len(out) != 1:
+        raise AnalysisBroken('%s: the integer digits are not stored through one loop-carried cursor (anchor changed)' % f.name)
+    return out[0]
+
+
+class InterpR(Interp7):
+    """Interp7 that knows the emitting loops of the renderer.  tracked = {header block name: (function, loop, cursor
+    phi, begin key, end key, peel)}: the cursor position on entry is stored as ghost <begin key>, the cursor position at
+    every exit as ghost <end key> (a head-tested loop leaves through its header, where a value noted by a hook in the
+    body is not the one of the last iteration).  peel: the first iteration is executed separately (the digit loop is
+    entered with a non-zero dividend, so it emits at least one digit: a fact the inferred invariant of a head-tested loop
+    cannot express)"""
+
+    def __init__(self, mod, externals=None, opaque=()):
+        Interp7.__init__(self, mod, externals, opaque)
+        self.tracked = {}
+
+    def track(self, fn, L, cur, begin, end, peel):
+        self.tracked[(fn.name, L['header'].name)] = (L, cur, begin, end, peel)
+
+    def run_loop(self, fn, L, st, frm, rets):
+        t = self.tracked.get((fn.name, L['header'].name))
+        if t is None or t[0] is not L:
+            return Interp7.run_loop(self, fn, L, st, frm, rets)
+        _, cur, begin, end, peel = t
+        init = None
+        for (bb, v) in cur.incoming:
+            if bb == frm.name:
+                init = self.val(st, v, fn)
+        if not isinstance(init, PtrVal):
+            raise AnalysisBroken('%s: cursor of the loop at %s has no pointer value on entry' % (fn.name, L['header'].name))
+        st.ghost[begin] = init.off
+        st.ghost.pop(end, None)
+        if peel:
+            self.eval_phis(fn, L['header'], st, frm)
+            latches, out = self.run_region(fn, L, [(st, frm)], rets)
+            out = list(out)
+            for (T, lf) in latches:
+                out.extend(Interp7.run_loop(self, fn, L, T, lf, rets))
+        else:
+            out = Interp7.run_loop(self, fn, L, st, frm, rets)
+        for (s, b, to) in out:
+            c = self.val(s, iv(cur), fn)
+            if isinstance(c, PtrVal) and c.obj == init.obj:
+                s.ghost[end] = c.off
+            else:
+                s.ghost.pop(end, None)
+        return out
+
+
 def ftoa_check(rep, mod):
     fname = 'igris_f32toa'
     f = need(mod, fname)
@@ -90,7 +156,10 @@ def ftoa_check(rep, mod):
         ss = [i for i in b.insts if i.op == 'store']
         for i in ss:
             rstores[i.id] = ss
-    it = Interp7(mod, externals={'strcpy': ext_strcpy, 'llvm.fabs.f32': ext_nop, 'llvm.fabs.f64': ext_nop})
+    cur = digit_cursor(f, IL, int_stores)
+    it = InterpR(mod, externals={'strcpy': ext_strcpy, 'llvm.fabs.f32': ext_nop, 'llvm.fabs.f64': ext_nop})
+    it.track(f, IL, cur, 'int_begin', 'int_end', True)
+    it.track(f, FL[0], digit_cursor(f, FL[0], frac_stores), 'frac_begin', 'frac_end', False)
     sink = Sink(rep, it)
     box = {}
 
@@ -119,9 +188,11 @@ def ftoa_check(rep, mod):
                       'obtained by a float -> int32 conversion without a magnitude guard, so it can be negative: e.g. '
                       '3e9f converts to INT_MIN and prints characters below \'0\')%s'
                       % (vl, interp.explain(st, [vl]) if vl is not None else ''))
-            ok = st.cons.entails_le(sign_len(st), p.off)
-            sink.inst('R-FTOA', fname, 'integer-digits-follow-the-sign', ok, w, 'digit stored at offset %r' % p.off)
-            g['int_end'] = p.off + 1
+            ok = st.cons.entails_le(sign_len(st), p.off) and 'int_begin' in g and \
+                st.cons.entails_eq(g['int_begin'], sign_len(st))
+            sink.inst('R-FTOA', fname, 'integer-digits-follow-the-sign', ok, w,
+                      'digit stored at offset %r, digits begin at %r after %d sign character(s)'
+                      % (p.off, g.get('int_begin'), sign_len(st)))
             return
         if i.id in rstores:
             lo, hi = Lin(sign_len(st)), g.get('int_end', Lin(0)) - 1
@@ -145,10 +216,11 @@ def ftoa_check(rep, mod):
             sink.inst('R-FTOA', fname, 'reversal-swaps-mirror-positions', ok, w, det)
             return
         if i.id in frac_stores:
-            ok = 'dot_off' in g and st.cons.entails_le(g['dot_off'] + 1, p.off)
+            ok = 'dot_off' in g and st.cons.entails_le(g['dot_off'] + 1, p.off) and 'frac_begin' in g and \
+                st.cons.entails_eq(g['dot_off'] + 1, g['frac_begin'])
             sink.inst('R-FTOA', fname, 'fraction-digits-follow-the-point', ok, w,
-                      'fraction digit stored at offset %r, decimal point at %r' % (p.off, g.get('dot_off')))
-            g['frac_end'] = p.off + 1
+                      'fraction digit stored at offset %r, fraction begins at %r, decimal point at %r'
+                      % (p.off, g.get('frac_begin'), g.get('dot_off')))
             return
         if c == 45 or c == 43:
             ok = st.cons.entails_eq(p.off, 0) and sign_len(st) == 0 and 'int_end' not in g
